@@ -406,7 +406,7 @@ Section Limit.
   Definition klimfrc := k__limit_frc w efcid lid sensor_type sensor_datatype sensor_objid sensor_adr sensor_cutoff sensor_limit_adr
       ne_in nf_in nl_in efc_type_in efc_id_in efc_pos_in sensordata_out orc.
 
-  (* the row condition the code tests (the SENSOR type is not part of it) *)
+  (* the row condition: inside the limit block of the world, efc_id = the sensor's object, a limit row *)
   Definition limit_row_selected : bool :=
     let sid := sensor_limit_adr lid in
     negb ((efcid <? ne_in w + nf_in w) || (efcid >=? ne_in w + nf_in w + nl_in w))
@@ -416,23 +416,43 @@ Section Limit.
     let sid := sensor_limit_adr lid in
     write_scalar w (sensor_adr sid) (sensor_type sid) (sensor_datatype sid) (sensor_cutoff sid) x.
 
-  Ltac lim := cbv beta zeta delta [limit_row_selected limit_write write_scalar cutoff_val SD app];
-              repeat match goal with
-                     | |- context [Z.ltb ?a ?b] => destruct (Z.ltb a b)
-                     | |- context [Z.geb ?a ?b] => destruct (Z.geb a b)
-                     | |- context [Z.eqb ?a ?b] => destruct (Z.eqb a b)
-                     | |- context [sgtb ?a ?b] => destruct (sgtb a b)
-                     end; reflexivity.
+  Ltac atoms :=
+    cbv beta zeta delta [limit_row_selected limit_write write_scalar cutoff_val SD app];
+    repeat match goal with
+           | |- context [Z.ltb ?a ?b] => destruct (Z.ltb a b)
+           | |- context [Z.geb ?a ?b] => destruct (Z.geb a b)
+           | |- context [Z.eqb ?a ?b] => destruct (Z.eqb a b)
+           | |- context [sgtb ?a ?b] => destruct (sgtb a b)
+           end; cbv beta iota delta [orb andb negb].
+  Ltac shape := atoms; first [left; reflexivity | right; reflexivity].
+  Ltac only_sel := atoms; first [reflexivity | intros Hc; exfalso; apply Hc; reflexivity].
 
-  Theorem limit_pos_kernel_spec :
-    klimpos = if limit_row_selected then limit_write (ssub (efc_pos_in w efcid) (efc_margin_in w efcid)) else [].
-  Proof. unfold klimpos. cbv beta zeta delta [k__limit_pos]. lim. Qed.
-  Theorem limit_vel_kernel_spec : klimvel = if limit_row_selected then limit_write (efc_pos_in w efcid) else [].
-  Proof. unfold klimvel. cbv beta zeta delta [k__limit_vel]. lim. Qed.
-  Theorem limit_frc_kernel_spec : klimfrc = if limit_row_selected then limit_write (efc_pos_in w efcid) else [].
-  Proof. unfold klimfrc. cbv beta zeta delta [k__limit_frc]. lim. Qed.
+  (* (these two forms hold for the current kernels and also for kernels that test the sensor type in addition) *)
+  (* one task writes nothing, or the row's value through the cutoff function at the sensor's address *)
+  Theorem limit_pos_kernel_shape : klimpos = [] \/ klimpos = limit_write (ssub (efc_pos_in w efcid) (efc_margin_in w efcid)).
+  Proof. unfold klimpos. cbv beta zeta delta [k__limit_pos]. shape. Qed.
+  Theorem limit_vel_kernel_shape : klimvel = [] \/ klimvel = limit_write (efc_pos_in w efcid).
+  Proof. unfold klimvel. cbv beta zeta delta [k__limit_vel]. shape. Qed.
+  Theorem limit_frc_kernel_shape : klimfrc = [] \/ klimfrc = limit_write (efc_pos_in w efcid).
+  Proof. unfold klimfrc. cbv beta zeta delta [k__limit_frc]. shape. Qed.
+  (* ... and it writes only for a selected row *)
+  Theorem limit_pos_writes_only_selected_row : klimpos <> [] -> limit_row_selected = true.
+  Proof. unfold klimpos. cbv beta zeta delta [k__limit_pos]. only_sel. Qed.
+  Theorem limit_vel_writes_only_selected_row : klimvel <> [] -> limit_row_selected = true.
+  Proof. unfold klimvel. cbv beta zeta delta [k__limit_vel]. only_sel. Qed.
+  Theorem limit_frc_writes_only_selected_row : klimfrc <> [] -> limit_row_selected = true.
+  Proof. unfold klimfrc. cbv beta zeta delta [k__limit_frc]. only_sel. Qed.
+
+  (* ---- BEGIN block that holds only while the row selection ignores the sensor type (finding
+          C07:LIMITSENSOR:joint-tendon-id-collision); delete it, and the theorem
+          limit_sensor_matches_mujoco_refuted below, when /repo is fixed ------------------------- *)
+  Theorem limit_pos_writes_every_selected_row :
+    limit_row_selected = true -> klimpos = limit_write (ssub (efc_pos_in w efcid) (efc_margin_in w efcid)).
+  Proof. unfold klimpos. cbv beta zeta delta [k__limit_pos]. atoms; first [reflexivity | discriminate]. Qed.
+  (* ---- END block -------------------------------------------------------------------------------- *)
 End Limit.
 
+(* ---- BEGIN block to delete when /repo is fixed (finding C07:LIMITSENSOR:joint-tendon-id-collision) ---- *)
 Section LimitRefuted.
   Context {S : Type} `{Scalar S}.
   (* MuJoCo: a JOINTLIMITPOS sensor (type 20) of joint 0 must ignore the limit row of TENDON 0
@@ -451,6 +471,7 @@ Section LimitRefuted.
     destruct (sgtb s0 (sofZ 0)); cbv iota beta delta [app]; discriminate.
   Qed.
 End LimitRefuted.
+(* ---- END block ---- *)
 
 Section TendonCutoff.
   Context {S : Type} `{Scalar S}.
